@@ -10,7 +10,7 @@ from ..selftest import Mutant
 
 ID = "C05"
 TECHNIQUE = "set-algebra truth table extracted by abstract interpretation (8 membership rows) + CFG pairing/guard rules (ast)"
-FLOOR = 18
+FLOOR = 44
 PR = "breezy/bzr/pack_repo.py"
 COLL = "RepositoryPackCollection"
 EXPLANATION = """
